@@ -220,7 +220,8 @@ func (fe *FnExec) doAlloc(st *State, x *ssa.Alloc) {
 	if _, ok := et.Underlying().(*types.Struct); ok && x.Heap {
 		fe.allocN++
 		ref := fe.fresh("obj."+typeName(et), "Int")
-		fe.assume(tEq(ref, sx("+", "HW", tInt(int64(fe.allocN)))), "fresh object id")
+		fe.assume(sx("<", fe.hw, ref), "fresh object id: above everything allocated so far")
+		fe.hw = ref
 		fe.typedRef(ref, et)
 		p := PtrV{Base: ref, Prefix: typeName(et), Pointee: et}
 		fe.regs[x] = p
